@@ -275,6 +275,16 @@ def execute(case):
     def value_for(ld):   # pylint: disable=function-redefined
       """Sometimes the value is a container that already sits somewhere else (the library stores a copy of it)."""
       v, verdict = _unheld_value_for(ld)
+      if isinstance(v, (pg.List, pg.Dict)) and v.sym_parent is None and ch.pick(2) == 0:
+        # a typed container that already sits in another (non-partial) tree
+        try:
+          holder = pg.Dict(x=v)
+        except REJECT:
+          return v, verdict
+        if holder.sym_getattr('x') is v:
+          held.append((holder, v, _json(holder), (v.allow_partial, repr(v.value_spec))))
+          res.label('held-typed-value')
+          return v, verdict
       if type(v) in (list, dict) and ch.pick(3) == 0 and '__tuple__' not in json.dumps(pg.to_json(v), default=str):
         # (values with tuples are left out: what a tuple holds is not symbolic, a copy shares it with the original by
         # design, and the spec fills defaults into a plain dict in place)
@@ -282,7 +292,7 @@ def execute(case):
           holder = pg.Dict(x=v)
         except REJECT:
           return v, verdict
-        held.append((holder, holder.x, _json(holder)))
+        held.append((holder, holder.x, _json(holder), None))
         res.label('held-value')
         return holder.x, verdict
       return v, verdict
@@ -510,12 +520,14 @@ def execute(case):
       return res.violate('valid primitive %s rejected with %r | %s' % (_r(v), exc, what),
                          op=name, rule='rejected-valid-write', **sigx)
     # a value that stays where it was (the library stores a copy) is not touched by the write, accepted or not
-    for holder, orig, snap in held:
+    for holder, orig, snap, typed_state in held:
       now = holder.sym_getattr('x', None)
       problem = None
       if now is not orig or orig.sym_parent is not holder:
         problem = 'it is no longer held by its owner'
-      elif getattr(orig, 'value_spec', None) is not None:
+      elif typed_state is not None and (orig.allow_partial, repr(orig.value_spec)) != typed_state:
+        problem = 'its (allow_partial, value spec) changed from %r to %r' % (typed_state, (orig.allow_partial, repr(orig.value_spec)))
+      elif typed_state is None and getattr(orig, 'value_spec', None) is not None:
         problem = 'it now carries the value spec %r of the place it was written to' % (orig.value_spec,)
       elif _json(holder) != snap:
         problem = 'its content changed from %s to %s' % (snap, _json(holder))
